@@ -1,5 +1,5 @@
 target('c40_csc', 'engines/comp/c40_csc.cpp',
-       quick=dict(cases=100000, size=60), thorough=dict(cases=600000, size=120))
+       quick=dict(cases=300000, size=60), thorough=dict(cases=600000, size=120))
 prop('C40', ['c40_csc'], 'comp',
      rule='rapidcheck picks one of 4 server configurations with the cycling_speed_and_cadence service (wheel + two sensor locations, the same with '
           'a shared write queue, wheel + one location, crank + two locations) and a sequence (length grows with the rapidcheck size) of control '
